@@ -8,3 +8,5 @@ import SpoxModel.Props.C16
 #print axioms C16.settings_restored_history
 #print axioms C16.inside_in_force
 #print axioms C16.pinned_counterexample
+#print axioms C16.write_sites_covered
+#print axioms C16.write_sites_defaults
